@@ -118,8 +118,10 @@ def make_doc_fn(wset_i: int):
 SIG = {
     "q": "", "Q": "", "cm": "nnnnnn", "BT": "", "ET": "", "Tc": "n", "Tw": "n", "Tz": "n", "TL": "n", "Tf": "Nn",
     "Ts": "n", "Td": "nn", "TD": "nn", "Tm": "nnnnnn", "T*": "", "Tj": "s", "TJ": "a", "'": "s", '"': "nns",
-    "g": "n", "rg": "nnn", "Do": "N",
+    "g": "n", "rg": "nnn", "k": "nnnn", "Do": "N",
 }
+
+NCOMP = {"DeviceGray": 1, "DeviceRGB": 3, "DeviceCMYK": 4}
 
 GS0 = {"ctm": gfx.IDENT, "Tc": 0, "Tw": 0, "Th": 1, "Tl": 0, "font": None, "Tfs": None, "rise": 0,
        "fill": ("DeviceGray", UNSET)}
@@ -177,6 +179,9 @@ class TM:
         op = ev[0]
         a = ev[1:]
         g = self.gs
+        if op == "sc":
+            self._sc(a)
+            return
         if not gfx.well_typed(ev, SIG[op]):
             self._illformed(ev)
             return
@@ -236,6 +241,9 @@ class TM:
         elif op == "rg":
             g["fill"] = ("DeviceRGB", tuple(gfx.num(x) for x in a))
             self.gcs = "DeviceRGB"
+        elif op == "k":
+            g["fill"] = ("DeviceCMYK", tuple(gfx.num(x) for x in a))
+            self.gcs = "DeviceCMYK"
         elif op == "Do":
             self._form(a[0][1:])
         else:
@@ -251,6 +259,15 @@ class TM:
             self.Tm = self.Tlm
         if op == "Tf" and len(a) == 2 and D_TF in self.dev and isinstance(a[0], str):
             self.gs["font"] = self.res["fonts"][a[0][1:]]
+
+    def _sc(self, a):
+        """sc takes as many numbers as the *current* non-stroking space has components (ISO 8.6.8)"""
+        g = self.gs
+        space = self.gcs if D_QCS in self.dev else g["fill"][0]
+        n = NCOMP[space]
+        if len(a) != n or not all(gfx.is_num(x) for x in a):
+            return  # missing / ill-typed operands: nothing changes
+        g["fill"] = (g["fill"][0], gfx.num(a[0]) if n == 1 else tuple(gfx.num(x) for x in a))
 
     def _td(self, tx, ty):
         self.Tlm = gfx.mat_mul((1, 0, 0, 1, tx, ty), self.Tlm)
@@ -318,6 +335,15 @@ TEXT_STATE = [
     ("Tf", "/F1", 8), ("Tf", "/F2", 10),
 ]
 COLOUR = [("g", Fr(1, 2)), ("rg", 1, 0, Fr(1, 2))]
+SC = {"DeviceGray": ("sc", Fr(1, 4)), "DeviceRGB": ("sc", Fr(1, 4), Fr(1, 2), Fr(3, 4)), "DeviceCMYK": ("sc", 0, Fr(1, 4), Fr(1, 2), 1)}
+# full operand count, one operand of the wrong type: neither the colour nor the colour *space* may change
+ILL_COLOUR = [("rg", 1, 0, b"oops"), ("g", "/N"), ("k", 0, 0, (1,), 1)]
+SC_ILL = {"DeviceGray": ("sc", b"x"), "DeviceRGB": ("sc", 1, "/N", 0), "DeviceCMYK": ("sc", 0, 0, b"x", 1)}
+
+
+def colour_events(m) -> list:
+    space = m.gs["fill"][0]
+    return COLOUR + [SC[space]] + ILL_COLOUR + [SC_ILL[space]]
 POSITION = [
     ("Td", 7, -5), ("TD", 3, -14), ("Tm", 2, 0, 0, 2, 40, 80), ("Tm", Fr(1, 2), 1, -2, 4, 30, 20), ("T*",),  # 2nd: a, b, c, d pairwise distinct
 ]
@@ -336,7 +362,7 @@ FORM_EV = [("Do", "/FmA"), ("Do", "/FmN"), ("Do", "/FmI")]
 def enabled(m: TM) -> List[Tuple]:
     have_font = m.gs["font"] is not None
     if m.intext:
-        ev = [("ET",)] + TEXT_STATE + COLOUR + POSITION
+        ev = [("ET",)] + TEXT_STATE + colour_events(m) + POSITION
         if have_font:
             ev += SHOW
         ev += ILL_TEXT
@@ -344,7 +370,7 @@ def enabled(m: TM) -> List[Tuple]:
     ev = [("q",)]
     if m.stack:
         ev.append(("Q",))
-    ev += CM + [("BT",)] + TEXT_STATE + COLOUR
+    ev += CM + [("BT",)] + TEXT_STATE + colour_events(m)
     ev += FORM_EV[:2]
     if have_font:
         ev.append(FORM_EV[2])
@@ -378,8 +404,8 @@ BOUNDS = {
 META = {
     "rule": (
         "breadth-first search over operator histories from three root prefixes (empty page; BT /F1 8 Tf; q cm g BT /F2 10 Tf 2 Tc) "
-        "with the operator instances of the alphabet (q Q cm x3, BT ET, Tc Tw Tz TL Ts Tf x2 values, Td TD Tm x2 T*, Tj x2 TJ ' \", g rg, "
-        "Do of a self-contained / a nested / an inheriting form XObject, 16 ill-formed instances), only ISO-conformant orders "
+        "with the operator instances of the alphabet (q Q cm x3, BT ET, Tc Tw Tz TL Ts Tf x2 values, Td TD Tm x2 T*, Tj x2 TJ ' \", g rg sc, ill-typed full-count g rg k sc, "
+        "Do of a self-contained / a nested / an inheriting form XObject, 16 further ill-formed instances), only ISO-conformant orders "
         "(no q/Q/cm/Do inside BT..ET, show only after Tf); state = (canonical real interpreter state, model state), deduplicated; "
         "every transition re-executes the whole history on the real interpreter and compares every glyph (text, font, matrix, advance, box, "
         "size, fill colour, colour space); in every state at the depth bound every show operator (and Do+show) is fired separately; every history up to "
